@@ -121,6 +121,7 @@ def gen_linked(ch):
     g = Grid.from_json(gj)
     prices = S.make_prices(g.T, S.PRICE_PAIRS[0])
     step_h = g.dt[0] * S.MTU_H[g.mtu]
+    T_ = g.T
     assets = [dict(type="SimpleContract", name="mkt", nodes=["n1"], price="p", min_cap=S.r(-9.0, g), max_cap=S.r(9.0, g))]
     lead = ch.pick("lnk.inner_lead", ["none", "transport", "multicommodity", "coarse"])
     inner = []
@@ -140,6 +141,8 @@ def gen_linked(ch):
         inner += [p2, p1]
     else:
         inner += [p1, p2]
+    if ch.pick("lnk.inner_tail", ["none", "late_contract"]) == "late_contract":   # an inner asset that starts later, set up last
+        inner.append(dict(type="SimpleContract", name="ilate", nodes=["n1"], price="q", min_cap=0.0, max_cap=S.r(1.0, g), start=g.instant_iso(("gp", T_ - 2))))
     v1 = ch.pick("lnk.v1", ["disp", "bool_on"])
     lnk = dict(type="LinkedAsset", name="lnk", nodes=["n1"], portfolio=inner, asset1_variable=["lp2", v1, "n1" if v1 == "disp" else None],
                asset2_variable=["lp1", "bool_on", None],
